@@ -7,10 +7,12 @@
 EXTENDS TextSem
 
 \* format parameters from the bit width
-FMant(fw) == IF fw = 32 THEN 23 ELSE 52          \* explicit mantissa bits p
-FExpBits(fw) == IF fw = 32 THEN 8 ELSE 11
-FBias(fw) == IF fw = 32 THEN 127 ELSE 1023
-FEmax(fw) == IF fw = 32 THEN 255 ELSE 2047       \* all-ones exponent field
+\* binary32, binary64, and two toy formats (1+4+3 and 1+3+2 bits) on which MC_Float checks these very
+\* definitions against an independent relational formulation over ALL bit patterns
+FMant(fw) == CASE fw = 32 -> 23 [] fw = 64 -> 52 [] fw = 8 -> 3 [] fw = 6 -> 2       \* explicit mantissa bits p
+FExpBits(fw) == CASE fw = 32 -> 8 [] fw = 64 -> 11 [] fw = 8 -> 4 [] fw = 6 -> 3
+FBias(fw) == PowInt(2, FExpBits(fw) - 1) - 1
+FEmax(fw) == PowInt(2, FExpBits(fw)) - 1          \* all-ones exponent field
 
 \* decode a pattern (BigNat): sign, exponent field (native), fraction (BigNat)
 FSign(fw, b) == BitAt(b, fw - 1) = 1
